@@ -215,6 +215,48 @@ pub fn run(lines: &[Value], opts: &FlowOpts, trace_path: &str) -> Summary {
             let _ = s.sample_rng(&edf, &Settings::new(None, false, false), opts.seed ^ ngraphs as u64);
             sm.count("graphs_warmed_up_through_rng");
         }
+        // ---- C14, semantically (no tracking scalar): every coordinate below the dimension changes the result when
+        // it changes; coordinates appended beyond the dimension change nothing
+        if ngraphs % 3 == 0 {
+            let dim = s.dim();
+            let e = g.ne();
+            // every edge gets a mass here so that V > 0 (with V = 0 the momenta do not depend on lambda and the Gaussians at all)
+            let edf: EdgeData<f64> = (0..e).map(|k| (Some(1.25 + 0.25 * k as f64), (0..g.d).map(|c| 0.5 + ((k + c) % 3) as f64).collect())).collect();
+            let set0 = Settings::new(None, false, true);
+            let base: Vec<f64> = (0..dim).map(|_| rng.gen_range(0.2..0.8)).collect();
+            let dg = |x: &[f64]| -> (u64, bool) { let o = s.sample_f64(x, &edf, &set0); (crate::checks::api::digest_of(&o), o.outcome == Outcome::Ok) };
+            let (d0, ok0) = dg(&base);
+            let v_pos = { let o = s.sample_f64(&base, &edf, &set0); o.obs.map(|o| o.v > 1e-6 && o.v.is_finite()).unwrap_or(false) };
+            if ok0 && v_pos {
+                sm.count("perturbation_points");
+                let mut longer = base.clone(); longer.extend([0.123, 0.987, 0.5]);
+                if dg(&longer).0 != d0 { sm.violation("C14", "coordinates beyond get_dimension() change the sample".into(), json!({"line": inst, "x": base.iter().map(|v| hexf(*v)).collect::<Vec<_>>()}), json!({"perturbation": "beyond"})); }
+                let mut longer2 = base.clone(); longer2.extend([0.9, 1e-9, 0.0]);
+                if dg(&longer2).0 != d0 { sm.violation("C14", "coordinates beyond get_dimension() change the sample".into(), json!({"line": inst, "x": base.iter().map(|v| hexf(*v)).collect::<Vec<_>>()}), json!({"perturbation": "beyond"})); }
+                for i in 0..dim {
+                    let is_edge = i < 2 * e - 2 && i % 2 == 0;
+                    let mut changed = false;
+                    if is_edge {
+                        if i != 0 { continue; }   // later edge coordinates need steering; the first one is decided on the full graph
+                        let cum: Vec<Option<f64>> = arr(&inst["cum"][(1usize << e) - 1]).iter().map(|r| { let (a, b) = (as_i64(&r[0]), as_i64(&r[1])); if b == 0 { None } else { Some(a as f64 / b as f64) } }).collect();
+                        if cum.len() < 2 || cum.iter().any(|c| c.is_none()) { continue; }
+                        let c: Vec<f64> = cum.iter().map(|c| c.unwrap()).collect();
+                        let (lo, hi) = (0.5 * c[0], 0.5 * (c[c.len() - 2] + 1.0));
+                        if c[0] < 1e-6 || 1.0 - c[c.len() - 2] < 1e-6 { continue; }
+                        let (mut xa, mut xb) = (base.clone(), base.clone());
+                        xa[i] = lo; xb[i] = hi;
+                        changed = dg(&xa).0 != dg(&xb).0;
+                    } else {
+                        for f in [1.0 + 1e-3, 1.0 - 1e-3, 0.5] { let mut xp = base.clone(); xp[i] = (base[i] * f).clamp(1e-6, 1.0 - 1e-6); if dg(&xp).0 != d0 { changed = true; break; } }
+                    }
+                    // when D*L is odd the last Box-Muller angle only enters the discarded sine together with the kept cosine: it still matters
+                    if !changed {
+                        sm.violation("C14", format!("coordinate {} (of {}) does not influence the sample", i, dim), json!({"line": inst, "x": base.iter().map(|v| hexf(*v)).collect::<Vec<_>>()}), json!({"perturbation": i}));
+                    }
+                    sm.count("perturbed_coordinates");
+                }
+            }
+        }
         for r in 0..opts.runs_per_graph {
             let set = Settings::new(if rng.gen_bool(0.3) { Some(1e-6) } else { None }, r % 4 == 3, r % 4 != 2);
             let dim = s.dim();
